@@ -38,6 +38,8 @@ pub const T_MAILA: u16 = 254;
 pub const T_ANY: u16 = 255;
 /// a private-use type above 255 (carried as opaque RDATA): code order and "ANY = 255" must not matter
 pub const T_PRIV: u16 = 65280;
+/// a DNSSEC-family type that is ordinary data as far as RFC 2136 goes (RFC 4035 2.5 admits only RRSIG, NSEC and KEY beside a CNAME)
+pub const T_DS: u16 = 43;
 
 pub const C_IN: u16 = 1;
 pub const C_CH: u16 = 3;
